@@ -48,6 +48,10 @@ def run_samples(ctx, rid, samples, site='src/json/config.json parse / tables'):
 CONVENTIONS = [(',', '.'), ('.', ','), (',', ''), ('.', ''), (',', ' ')]
 
 
+def deep(ctx):
+    return ctx.tier == 'thorough' and ctx.cfg_name == 'dev'
+
+
 def number_samples():
     out = []
     for dec, thou in CONVENTIONS:
@@ -102,6 +106,10 @@ def unit_samples(ctx):
                     seen.add(spelled)
                     lit = '3 %s' % spelled
                     out.append((lit, 'en', [('Number', '3'), ('Text', spelled)], 'unit/%s/%s' % (fam, spelled), 'a quantity in the unit %r (%s)' % (w, fam)))
+                    if deep(ctx):
+                        # thorough tier: the same word inside an expression, after a decimal amount and glued to the number
+                        out.append(('2 * 3 %s' % spelled, 'en', [('Number', '2'), ('Operator', '*'), ('Number', '3'), ('Text', spelled)], 'unit/%s/%s/in-expression' % (fam, spelled), 'a quantity in the unit %r (%s) inside an expression' % (w, fam)))
+                        out.append(('1,5 %s' % spelled, 'en', [('Number', '1,5'), ('Text', spelled)], 'unit/%s/%s/decimal' % (fam, spelled), 'a decimal quantity in the unit %r (%s)' % (w, fam)))
     return out
 
 
@@ -118,6 +126,9 @@ def month_samples(ctx):
             for spelled in (name, name.capitalize() if name.isascii() else name):
                 lit = '12 %s 2021' % spelled
                 out.append((lit, lang, [('Number', '12'), ('Month', spelled), ('Number', '2021')], 'month/%s/%s' % (lang, spelled), 'a date with the month name %r' % name))
+                if deep(ctx):
+                    out.append(('12 %s' % spelled, lang, [('Number', '12'), ('Month', spelled)], 'month/%s/%s/no-year' % (lang, spelled), 'a date without a year with the month name %r' % name))
+                    out.append(('%s 12 2021' % spelled, lang, [('Month', spelled), ('Number', '12'), ('Number', '2021')], 'month/%s/%s/month-first' % (lang, spelled), 'a month-first date with the month name %r' % name))
     return out
 
 
@@ -128,6 +139,9 @@ def zone_samples(ctx):
             continue
         lit = '15:00 %s' % z
         out.append((lit, 'en', [('Time', '15:00'), ('Timezone', z)], 'zone/%s' % z, 'a time in the zone %s' % z))
+        if deep(ctx):
+            out.append(('09:05:07 %s' % z, 'en', [('Time', '09:05:07'), ('Timezone', z)], 'zone/%s/seconds' % z, 'a time with seconds in the zone %s' % z))
+            out.append(('15:00 %s' % z.lower(), 'en', [('Time', '15:00'), ('Timezone', z.lower())], 'zone/%s/lower-case' % z, 'a time in the zone %s written in lower case' % z))
     for z in ('GMT+3', 'GMT-3:30', 'GMT+11:00', 'GMT'):
         lit = '15:00 %s' % z
         out.append((lit, 'en', [('Time', '15:00'), ('Timezone', z)], 'zone/%s' % z, 'a time in the zone %s' % z))
